@@ -8,6 +8,7 @@ use std::path::PathBuf;
 pub mod crashprops;
 pub mod ioprops;
 pub mod seqprops;
+pub mod thrprops;
 
 pub struct Outcome {
     pub violation: Option<Violation>,
@@ -61,6 +62,8 @@ pub fn budget(prop: &str, tier: Tier) -> u64 {
         "C03" => 120,
         "C15" => 100,
         "C17" => 3000,
+        "C14" => 3000,
+        "C06" => 3000,
         _ => 1000,
     };
     match tier {
@@ -73,9 +76,15 @@ pub fn gen_case(prop: &str, tier: Tier, seed: u64) -> Case {
     match prop {
         "C01" => seqprops::gen_c01(tier, seed),
         "C04" => seqprops::gen_c04(tier, seed),
+        // every 4th case of these families is a THR (scheduled threads) case
+        "C05" if seed % 4 == 0 => thrprops::gen_c05t(tier, seed),
+        "C07" if seed % 4 == 0 => thrprops::gen_c07t(tier, seed),
+        "C08" if seed % 4 == 0 => thrprops::gen_c08t(tier, seed),
         "C05" => seqprops::gen_c05(tier, seed),
         "C07" => seqprops::gen_c07(tier, seed),
         "C08" => seqprops::gen_c08(tier, seed),
+        "C14" => thrprops::gen_c14(tier, seed),
+        "C06" => thrprops::gen_c06(tier, seed),
         "C11" => seqprops::gen_c11(tier, seed),
         "C12" => seqprops::gen_c12(tier, seed),
         "C16" => seqprops::gen_c16(tier, seed),
@@ -92,6 +101,9 @@ pub fn gen_case(prop: &str, tier: Tier, seed: u64) -> Case {
 }
 
 pub fn run_case(case: &Case, dir: PathBuf) -> Outcome {
+    if case.engine == Engine::Thr {
+        return crate::thr::run_thr(case, dir);
+    }
     match case.prop.as_str() {
         "C01" | "C04" | "C05" | "C07" | "C08" | "C11" | "C12" | "C16" | "C18" => seqprops::run_seq(case, dir),
         "C02" | "C09" | "C10" => crashprops::run_faulty(case, dir),
